@@ -30,7 +30,9 @@ package lock
 //@   ensures[C04,C03] only_lock_fields: each Store.Save(?s) -> _ => PID(s) == old(PID(s)) && Password(s) == old(Password(s))
 //@   -- C03: the handler lets the login continue only if the account was not locked
 //@   -- at its last clock reading
-//@   ensures[C03] veto_locked: (result.0 == false && result.1 == nil) ==>
+//@   -- (C04: a correct-password attempt always goes through the bookkeeping - last attempt,
+//@   -- window - whatever earlier handlers of the event answered)
+//@   ensures[C03,C04] veto_locked: (result.0 == false && result.1 == nil) ==>
 //@       emits Store.Save(?s) -> _ :: emits Now() -> ?t :: final(Locked(s)) <= t && each Now() -> ?t2 => t2 <= t
 //@   ensures[C03] veto_redirects: result.0 ==> emits Redirect(?ro) :: ro.Code == 307 && ro.RedirectPath == l.Config.Paths.LockNotOK
 //@   ensures[C18] no_panic: !panics
@@ -48,7 +50,7 @@ package lock
 //@        !emits HeaderSet(_, _, _) && !emits WriteHeader(_, _) && !emits Write(_, _) && !emits HTTPRedirect(_, _, _))
 //@
 //@ func (*Lock).BeforeAuth
-//@   property C03 C16
+//@   property C03 C04 C16
 //@   -- C16(a): the registered handler is a plain wrapper: for an account locked throughout the
 //@   -- request it answers with the one fixed redirect of updateLockedState, nothing else
 //@   ensures[C16] locked_same: (!panics && (emits Store.Save(?s) -> ?e :: e == nil && (each Now() -> ?t => old(Locked(s)) > t && Locked(s) > t))) ==>
@@ -58,7 +60,7 @@ package lock
 //@            !(before Redirect(_)) && !(after Redirect(_))) &&
 //@        !emits Respond(_, _, _) && !emits Sess.Put(_, _) && !emits Sess.Del(_) && !emits Sess.DelAll(_) && !emits Cook.Put(_, _) && !emits Cook.Del(_) &&
 //@        !emits HeaderSet(_, _, _) && !emits WriteHeader(_, _) && !emits Write(_, _) && !emits HTTPRedirect(_, _, _))
-//@   ensures[C03] veto_locked: (result.0 == false && result.1 == nil) ==>
+//@   ensures[C03,C04] veto_locked: (result.0 == false && result.1 == nil) ==>
 //@       emits Store.Save(?s) -> _ :: emits Now() -> ?t :: final(Locked(s)) <= t && each Now() -> ?t2 => t2 <= t
 //@
 //@ func (*Lock).AfterAuthSuccess
